@@ -63,7 +63,7 @@ pub struct RwLock<T: ?Sized, R> {
 /// [`LockCollection`]: `crate::LockCollection`
 pub struct RwLockReadRef<'a, T: ?Sized, R: RawRwLock>(
 	&'a RwLock<T, R>,
-	PhantomData<R::GuardMarker>,
+	PhantomData<(R::GuardMarker, *const ())>,
 );
 
 /// RAII structure that unlocks the exclusive write access to a [`RwLock`] when
@@ -81,7 +81,7 @@ pub struct RwLockReadRef<'a, T: ?Sized, R: RawRwLock>(
 /// [`LockCollection`]: `crate::LockCollection`
 pub struct RwLockWriteRef<'a, T: ?Sized, R: RawRwLock>(
 	&'a RwLock<T, R>,
-	PhantomData<R::GuardMarker>,
+	PhantomData<(R::GuardMarker, *const ())>,
 );
 
 /// RAII structure used to release the shared read access of a lock when
